@@ -13,7 +13,7 @@ From Irismod Require Import Genesis.Store.
     iterates), and [reachable_<mod>] proves [invb (abs (run h)) = true] for every history [h] from that
     model's proved invariants (plus small extra invariants proved over its step function).  The C12
     statements then quantify over histories. *)
-From Irismod Require Genesis.LinkRecord Genesis.LinkCoinswap Genesis.LinkRandom Genesis.LinkNft Genesis.LinkMt Genesis.LinkHtlc Genesis.LinkToken Genesis.LinkFarm Genesis.LinkHtlcParams Genesis.LinkOracle.
+From Irismod Require Genesis.LinkRecord Genesis.LinkCoinswap Genesis.LinkRandom Genesis.LinkNft Genesis.LinkMt Genesis.LinkHtlc Genesis.LinkToken Genesis.LinkFarm Genesis.LinkHtlcParams Genesis.LinkOracle Genesis.LinkService.
 
 Module LinkRecordC12.
 Import Genesis.LinkRecord.
@@ -424,3 +424,64 @@ Theorem oracle_history_fixpoint_and_queries :
 Proof. exact LinkOracle.oracle_history_fixpoint_and_queries. Qed.
 Print Assumptions oracle_history_fixpoint_and_queries.
 End LinkOracleC12.
+
+(** ** service: a PARTIAL link ([Genesis/LinkService.v]).  The genesis-level service model is structural (field-level
+    validity of parameters / definitions / bindings / request contexts is the module's own Validate, carried as
+    flags).  Derived for EVERY history of the service group's model: the structural [invb] of the abstraction;
+    from their [WInv] ([reach_W]) that the model's provider -> owner store is the view [owners_view] the
+    genesis-level model computes from the bindings; from their [DepInv] that binding owners and withdraw addresses
+    are addresses; and the round trip after PrepForZeroHeightGenesis (as-is only when every context is paused
+    with a completed batch — the known finding otherwise).  LEFT HAND-WRITTEN: the validity flags (set to true by
+    [abs]) and the (owner, service, provider) index, which the message model does not have. *)
+Module LinkServiceC12.
+Import Genesis.LinkService.
+
+Theorem reachable_service :
+  forall (np : Z -> Z) (nc : M.ctxid -> Z) (npr : M.binding -> Z) (pblob : Z) (dblob : Z -> Z)
+         (bblob : (Z * Z) -> M.binding -> Z) (xblob : M.ctxid -> M.context -> Z),
+  (forall a, 0 <= np a) -> (forall a b, np a = np b -> a = b) -> (forall a, 0 <= nc a) -> (forall a b, nc a = nc b -> a = b) ->
+  (forall b, 0 <= npr b) ->
+  forall c h0 t0 l0 steps, G.invb (abs np nc npr pblob dblob bblob xblob (M.run c (M.init h0 t0 l0) steps)) = true.
+Proof. exact LinkService.reachable_service. Qed.
+Print Assumptions reachable_service.
+
+Theorem service_owner_index_is_view :
+  forall (np : Z -> Z) (nc : M.ctxid -> Z) (npr : M.binding -> Z) (pblob : Z) (dblob : Z -> Z)
+         (bblob : (Z * Z) -> M.binding -> Z) (xblob : M.ctxid -> M.context -> Z),
+  (forall a b, np a = np b -> a = b) ->
+  forall c h0 t0 l0 steps,
+  G.owners_view (abs np nc npr pblob dblob bblob xblob (M.run c (M.init h0 t0 l0) steps))
+  = abs_owners np (M.run c (M.init h0 t0 l0) steps).
+Proof. exact LinkService.service_owner_index_is_view. Qed.
+Print Assumptions service_owner_index_is_view.
+
+Theorem service_owners_are_addresses :
+  forall c h0 t0 l0 steps, Irismod.Base.Bank.bal l0 M.DEP M.BASE = 0 ->
+  (forall k b, get k (M.binds (M.run c (M.init h0 t0 l0) steps)) = Some b -> 0 <= M.b_owner b)
+  /\ (forall o w, get o (M.waddr (M.run c (M.init h0 t0 l0) steps)) = Some w -> 0 <= w).
+Proof. exact LinkService.service_owners_are_addresses. Qed.
+Print Assumptions service_owners_are_addresses.
+
+Theorem service_history_prep_roundtrip :
+  forall (np : Z -> Z) (nc : M.ctxid -> Z) (npr : M.binding -> Z) (pblob : Z) (dblob : Z -> Z)
+         (bblob : (Z * Z) -> M.binding -> Z) (xblob : M.ctxid -> M.context -> Z),
+  (forall a, 0 <= np a) -> (forall a b, np a = np b -> a = b) -> (forall a, 0 <= nc a) -> (forall a b, nc a = nc b -> a = b) ->
+  (forall b, 0 <= npr b) ->
+  forall c h0 t0 l0 steps,
+  let a := abs np nc npr pblob dblob bblob xblob (M.run c (M.init h0 t0 l0) steps) in
+  G.validate (G.export (G.prep a)) = true /\ G.import (G.export (G.prep a)) = Some (G.prep a).
+Proof. exact LinkService.service_history_prep_roundtrip. Qed.
+Print Assumptions service_history_prep_roundtrip.
+
+Theorem service_history_quiet_roundtrip :
+  forall (np : Z -> Z) (nc : M.ctxid -> Z) (npr : M.binding -> Z) (pblob : Z) (dblob : Z -> Z)
+         (bblob : (Z * Z) -> M.binding -> Z) (xblob : M.ctxid -> M.context -> Z),
+  (forall a, 0 <= np a) -> (forall a b, np a = np b -> a = b) -> (forall a, 0 <= nc a) -> (forall a b, nc a = nc b -> a = b) ->
+  (forall b, 0 <= npr b) ->
+  forall c h0 t0 l0 steps,
+  (forall id x, get id (M.ctxs (M.run c (M.init h0 t0 l0) steps)) = Some x -> M.x_state x = 1 /\ M.x_brun x = false) ->
+  let a := abs np nc npr pblob dblob bblob xblob (M.run c (M.init h0 t0 l0) steps) in
+  G.validate (G.export a) = true /\ G.import (G.export a) = Some a.
+Proof. exact LinkService.service_history_quiet_roundtrip. Qed.
+Print Assumptions service_history_quiet_roundtrip.
+End LinkServiceC12.
